@@ -52,6 +52,11 @@ def keys(ctx, rule):
     nxt = [bi for bi, t in q.calls_to(c, "Iterator::next")]
     ok = len(srt) == 1 and "slice::sort_unstable_by_key(arg1,arg2)" in calls and bool(nxt) and c.dominates(srt[0], nxt[0])
     ctx.check(ok, rule, c.path, "sorted-by-key", "tokens are sorted by the key before they are paired into stretches")
+    cp = [bi for bi, t in q.calls_to(c, "Vec::<T, A>::push")]
+    if cp and nxt:
+        from rules.common import loop_passes
+        ent = [tb for v, tb in c.blocks[c.blocks[nxt[0]]["term"]["t"]]["term"].get("arms", []) if v == 1]
+        ctx.check(len(cp) == 1 and bool(ent) and loop_passes(c, ent[0], nxt[0], cp), rule, c.path, "range:no-skip", "every token yields a stretch")
     lit = [c.expr_of_rvalue(s["rv"]) for bi, si, s, it in c.locations() if not it and s["k"] == "assign" and s["rv"]["k"] == "agg" and s["rv"].get("adt", "").endswith("adjust_mappings::Range")]
     if ctx.check(len(lit) == 1, rule, c.path, "literal", "one Range per token"):
         a = lit[0]
